@@ -41,8 +41,19 @@ KNOWN_SIG = "faildust-not-consumed-after-broadcast"
 # ---------------------------------------------------------------- Coq terms
 
 
+def nN(n):
+    """cN with a guard: a negative value would print as `-1%N`, which Coq parses as a
+    subtraction applied to the preceding term (ill-typed case file, not a verdict)."""
+    n = int(n)
+    if n < 0:
+        raise ValueError("negative value %d for an N-typed field" % n)
+    return cN(n)
+
+
 def t_htlc(h):
-    return "(mkHtlc %s %s %s %s %s)" % (cN(h[0]), cbool(h[1]), cZ(h[2]), cN(h[3]), cN(h[4]))
+    if len(h) != 5:
+        raise ValueError("htlc record with %d fields: %r" % (len(h), h))
+    return "(mkHtlc %s %s %s %s %s)" % (nN(h[0]), cbool(h[1]), cZ(h[2]), nN(h[3]), nN(h[4]))
 
 
 def t_sets(s):
@@ -308,7 +319,7 @@ CKEY = {"l": "CLocal", "r": "CRemote", "p": "CPending"}
 def t_lev(op):
     k = op["op"]
     if k == "start":
-        return "AStart %s" % cN(op["h"])
+        return "AStart %s" % nN(op["h"])
     if k == "signal":
         return "ASignal"
     if k == "upd":
@@ -316,7 +327,7 @@ def t_lev(op):
     if k == "tick":
         return "ATick %s" % cZ(op["dt"])
     if k == "block":
-        return "ABlock %s" % cN(op["h"])
+        return "ABlock %s" % nN(op["h"])
     if k == "user":
         return "AUser"
     raise ValueError(k)
